@@ -211,7 +211,9 @@ func init() {
 		c := func(tag rscp.Tag, v uint8) rscp.Message {
 			return rscp.Message{Tag: tag, DataType: rscp.Container, Value: []rscp.Message{{Tag: rscp.BAT_INDEX, DataType: rscp.UChar8, Value: v}}}
 		}
-		s := func(tag rscp.Tag, v uint8) rscp.Message { return rscp.Message{Tag: tag, DataType: rscp.UChar8, Value: v} }
+		s := func(tag rscp.Tag, v uint8) rscp.Message {
+			return rscp.Message{Tag: tag, DataType: rscp.UChar8, Value: v}
+		}
 		alphabet := []func(uint8) rscp.Message{func(v uint8) rscp.Message { return c(A, v) }, func(v uint8) rscp.Message { return c(B, v) },
 			func(v uint8) rscp.Message { return s(A, v) }, func(v uint8) rscp.Message { return s(B, v) }}
 		maxLen := 4
@@ -283,6 +285,30 @@ func init() {
 				}
 				cw.add("skip", "skip", "N jsonout unusual-string", prop)
 			}
+		}
+		// determinism across runs: keys spread over the whole 32-bit tag range, printed many times
+		for i := 0; i < 6; i++ {
+			var ms []rscp.Message
+			for _, t := range []uint32{0x03800001, 0x7F800000, 0xFE800004, 0x80800001, g.r.Uint32() | 1<<23, g.r.Uint32() | 1<<23, g.r.Uint32() | 1<<23} {
+				ms = append(ms, rscp.Message{Tag: rscp.Tag(t), DataType: rscp.UChar8, Value: uint8(g.pick(200))})
+			}
+			g.r.Shuffle(len(ms), func(a, b int) { ms[a], ms[b] = ms[b], ms[a] })
+			plain := plainFrame(ms, false, time.Unix(1, 0).UTC())
+			first := loop.ask("out jsonmerged " + hexOf(plain))
+			prop := "pass"
+			for k := 0; k < 15; k++ {
+				if again := loop.ask("out jsonmerged " + hexOf(plain)); again != first {
+					prop = "FAIL C13 the same response is printed differently from run to run (format jsonmerged)"
+				}
+			}
+			impl := "err"
+			if strings.HasPrefix(first, "ok ") {
+				txt, _ := unhex(first[3:])
+				if toks, ok := joTokens(txt); ok {
+					impl = "ok " + toks
+				}
+			}
+			cw.add("jout jsonmerged "+msgsString(ms), impl, "N jsonout far-apart-keys", prop)
 		}
 		for _, sec := range secEdges {
 			run([]rscp.Message{{Tag: rscp.INFO_UTC_TIME, DataType: rscp.Timestamp, Value: time.Unix(sec, 5).UTC()}}, fmt.Sprintf("time-edge sec=%d", sec), true)
